@@ -215,6 +215,7 @@ static void c01_case (long idx, vf_rng *r)
                 vf_count ("table_directed_cases", 1); vf_label ("table_directed", "%s#%d", imp_names[rc->imp], rc->index); }
         }
     }
+    if (!exhaustive_alpha && !shared_pair && rp_is_wide (df) && vf_chance (r, 1, 4)) { skind = 1; if (vf_chance (r, 1, 2)) op = PIXMAN_OP_OVER; }      /* solid colours with all 16 bits onto deep destinations */
     if (skind == 1) sf = PIXMAN_a8r8g8b8;          /* a solid fill has no storage format; it is a narrow operand */
     if (mkind == 1) mf = PIXMAN_a8r8g8b8;
     int narrow = !rp_is_wide (df) && !rp_is_wide (sf) && (mode == RO_NOMASK || !rp_is_wide (mf)) && !ro_needs_float (op);
